@@ -12,6 +12,7 @@ C02.trunc   compressors forget positions on truncate.
 C02.prefix  RDLENGTH back-patch shape / rdlen(can_compress) agreement.
 """
 import re
+import sigs
 
 from mirlib import strip, deep_strip, show, walk, const_value
 from rulelib import (
@@ -521,6 +522,11 @@ def _is_len(t):
 
 def rule_prefix(ctx, F):
     R = "C02.prefix"
+    for adt, rb, ok, names in sigs.rdlen_compress_agreement(F):
+        ctx.ob(R, adt, "rdlen(compress) is None when names are compressed", ok,
+               "%s::rdlen(true) announces a length although compose_rdata compresses %s: on a compressing target "
+               "the RDLENGTH written differs from the record data, and the message no longer parses back"
+               % (adt.split("::")[-1], names), where=rb.where())
     ctx.floor(R, 5)
     b = F.body("base::rdata::compose_prefixed")
     if ctx.anchor(R, "base::rdata::compose_prefixed", b):
